@@ -205,6 +205,67 @@ func runRespHistory(t testing.TB, ops []string) string {
 				res += "!still-registered"
 			}
 			out = append(out, res)
+		case op == "zt": // a request with a zero timeout to a target that never replies: an error, promptly
+			silent := e.SpawnFunc(func(c *Context) {}, "verifzt", WithID(strconv.Itoa(len(out))))
+			res := "BLOCKED"
+			done := make(chan string, 1)
+			go func() {
+				if _, err := e.Request(silent, vUser{-7}, 0).Result(); err != nil {
+					done <- "timeout"
+				} else {
+					done <- "value"
+				}
+			}()
+			select {
+			case res = <-done:
+			case <-time.After(500 * time.Millisecond):
+			}
+			<-e.Poison(silent).Done()
+			out = append(out, res)
+		case op == "cq": // two successive Context.Request calls made by ONE actor from inside Receive; the first one's reply comes late
+			target := e.SpawnFunc(func(c *Context) {
+				if u, ok := c.Message().(vUser); ok {
+					if u.k < 0 {
+						time.Sleep(40 * time.Millisecond) // later than the requester's 10 ms timeout
+					}
+					c.Respond(vUser{u.k})
+				}
+			}, "verifcqt", WithID(strconv.Itoa(len(out))))
+			evs.mu.Lock()
+			evs.dead = 0
+			evs.mu.Unlock()
+			resCh := make(chan string, 1)
+			asker := e.SpawnFunc(func(c *Context) {
+				if _, ok := c.Message().(vUser); ok {
+					first := "value"
+					if _, err := c.Request(target, vUser{-5}, 10*time.Millisecond).Result(); err != nil {
+						first = "timeout"
+					}
+					// the second request is made at once: the late reply to the first one arrives WHILE the second is pending
+					// and must become a dead letter, not the second request's result
+					second := "timeout"
+					if v, err := c.Request(target, vUser{9}, 2*time.Second).Result(); err == nil {
+						second = fmt.Sprintf("value%v", v.(vUser).k)
+					}
+					resCh <- "first=" + first + " second=" + second
+				}
+			}, "verifcqa", WithID(strconv.Itoa(len(out))))
+			e.Send(asker, vUser{0})
+			res := "NOANSWER"
+			select {
+			case res = <-resCh:
+			case <-time.After(4 * time.Second):
+			}
+			evs.mu.Lock()
+			if evs.dead > 0 {
+				res += " late=deadletter"
+			} else {
+				res += " late=SWALLOWED"
+			}
+			evs.mu.Unlock()
+			<-e.Poison(asker).Done()
+			<-e.Poison(target).Done()
+			out = append(out, res)
 		case op == "sl": // a request that gets no reply, then a SENDERLESS message whose handler calls Respond: the request must time out
 			silent := e.SpawnFunc(func(c *Context) {
 				if u, ok := c.Message().(vUser); ok && u.k == -8 {
@@ -308,9 +369,10 @@ func TestVerifResp(t *testing.T) {
 	emit("ids", []string{"ids" + strconv.Itoa(vgen.Scale(320000, 1600000))})
 	emit("edge", []string{"ed" + strconv.Itoa(vgen.Scale(12, 60)), "qi3", "rq", "rp0v4", "rs0"})
 	emit("silent", []string{"sl", "qi4", "sl"})
+	emit("ctxreq", []string{"cq", "zt", "qi2", "cq"})
 	emit("conc", []string{"cc" + strconv.Itoa(vgen.Scale(16, 64)) + "x" + strconv.Itoa(vgen.Scale(400, 2000)), "qi5", "cc2x50", "qi9"})
 	r := vgen.NewRng(vgen.Seed())
-	n := vgen.Scale(150, 2500)
+	n := vgen.Scale(500, 4000)
 	for i := 0; i < n; i++ {
 		rr := r.Fork()
 		k := 2 + rr.Intn(9)
